@@ -69,6 +69,10 @@ def gen_universe(rnd, big=False):
         if mixed_prio:
             tk['prio'] = rnd.choice([1, 2, 3, None, 'x', 2.5])
         tasks.append(tk)
+    if rnd.random() < 0.2:
+        # 0 is an id like any other (also twice: two objects that must never share a WBS)
+        for k in rnd.sample(range(n), rnd.choice([1, 2, 2])):
+            tasks[k]['id'] = 0
     nw = rnd.choice([1, 1, 2, 2, 3])
     wbs = [({'title': f'W{k}'} if rnd.random() < 0.3 else {}) for k in range(nw)]
     return {'tasks': tasks, 'wbs': wbs}
@@ -224,6 +228,8 @@ def gen_op(rnd, s, u):
         if rnd.random() < 0.5:
             cur = _hl(s, holder)
             L = rnd.sample(cur, rnd.randint(0, len(cur))) + L
+            if rnd.random() < 0.5:
+                rnd.shuffle(L)        # kept children also after the newcomers (a newcomer that is refused must not cost them their place)
         if form == 'single':
             L = L[:1]
         if form == 'none':
@@ -523,6 +529,34 @@ def run_history(prop, spec, ops, acc, gen=None, tail=True, judge_from=0, layer='
         prefix.append(['new', s_after['T'][victim]['id'], 'n0', {'parent': r_}])
         prefix.append(rnd.choice([['parent=', victim, r_], ['append', ['t', r_], victim], ['append', ['w', w_], victim],
                                   ['insert', ['t', r_], 0, victim], ['floordiv', ['t', r_], [victim], True]]))
+        n += len(prefix)
+    elif ops is None and len(s_after['T']) >= 5 and gen[0].random() < 0.07:
+        # scenario prefix "a view kept across a sort": user code holds task.children (or wbs.roots), the list is sorted and
+        # edited through the owner, then the kept view is used again -- it must still speak for the current list
+        rnd = gen[0]
+        a_, b_, c_, d_, e_ = list(s_after['T'])[:5]
+        w_ = rnd.choice(list(s_after['R']))
+        h_ = rnd.choice([['t', a_], ['w', w_]])
+        prefix = [['append', ['w', w_], a_]] if h_[0] == 't' else []
+        prefix += [['append', h_, b_], ['append', h_, c_], ['append', h_, d_], ['stale.get', 's0', h_],
+                   ['sort', h_, rnd.choice(['name', 'id', ['name', 'id'], ['id']]), rnd.random() < 0.5]]
+        prefix.append(rnd.choice([['append', h_, e_], ['lremove', h_, b_], ['insert', h_, 0, e_], ['wbs.remove', w_, c_]]))
+        prefix.append(['stale.use', 's0', rnd.choice([['move', h_, [d_], b_, None, True], ['sort', h_, 'name', False], ['reorder', h_, []],
+                                                      ['lremove', h_, d_], ['append', h_, e_], ['insert', h_, 1, e_]])])
+        n += len(prefix)
+    elif ops is None and len(s_after['T']) >= 5 and len(s_after['R']) >= 2 and gen[0].random() < 0.08:
+        # scenario prefix "replacement list with a task of another WBS": the call is refused; whatever it leaves behind, the
+        # user carries on -- gives the id of a listed child to a new task, puts the listed children back
+        rnd = gen[0]
+        a_, b_, c_, d_, f_ = list(s_after['T'])[:5]
+        w0, w1 = list(s_after['R'])[:2]
+        L_ = rnd.choice([[f_, b_], [f_, c_, b_], [b_, f_, c_], [d_, f_, b_], [f_]])
+        prefix = [['append', ['w', w0], a_], ['append', ['t', a_], b_], ['append', ['t', a_], c_], ['append', ['w', w1], f_],
+                  rnd.choice([['children=', ['t', a_], L_, rnd.choice(['list', 'tuple', 'gen'])], ['floordiv', ['t', a_], L_, False],
+                              ['children=', ['w', w0], [f_, a_], 'list']]),
+                  ['new', s_after['T'][rnd.choice([b_, c_])]['id'], 'n0', {'parent': a_}],
+                  rnd.choice([['parent=', b_, a_], ['append', ['t', a_], b_], ['insert', ['t', a_], 0, c_], ['parent=', c_, a_]]),
+                  rnd.choice([['parent=', c_, a_], ['append', ['t', a_], c_], ['floordiv', ['t', a_], [b_, c_], False]])]
         n += len(prefix)
     elif ops is None and gen[0].random() < 0.45:
         # builder prefix: a WBS tree with chains (depth up to 4) so that deep states are common starting points
